@@ -63,7 +63,8 @@ def _col(rng, t):
 
 
 def gen_frame(rng, t, ncols: int, kind: str) -> dict:
-    """kind: plain | grouped | broken (non-contiguous c0 => group_by fails)."""
+    """kind: plain | grouped | broken (non-contiguous c0 => group_by fails) |
+    broken2 (c0 contiguous, c1 non-contiguous inside a c0 group => only a two-level group_by fails)."""
     nrows = rng.choice([1, 2, 3, 5, 8, 13, 21, 34] if t["small_nrow"] else [1, 2, 3, 4, 6, 10])
     cols = []
     for j in range(ncols):
@@ -72,10 +73,17 @@ def gen_frame(rng, t, ncols: int, kind: str) -> dict:
             keys = ["G1", "G2", "G3"]
             if kind == "grouped":
                 vals = sorted(rng.choice(keys) for _ in range(nrows))
+            elif kind == "broken2":
+                if nrows < 4:
+                    nrows = 4
+                vals = ["G1"] * (nrows - 1) + ["G2"]
             else:
                 if nrows < 3:
                     nrows = 3
                 vals = [keys[i % 2] for i in range(nrows)]  # G1 G2 G1 ... non-contiguous
+            cols.append([name, "str", vals])
+        elif kind == "broken2" and j == 1:
+            vals = [("S0", "S1")[i % 2] for i in range(nrows - 1)] + ["S2"]  # S0 S1 S0 ... inside G1
             cols.append([name, "str", vals])
         elif kind != "plain" and j == 1:
             # second key, contiguous within the first
@@ -215,6 +223,9 @@ def gen_palette_of_specs(rng, t) -> dict:
         "footnote": [gen_text_comp(rng, t, "footnote") for _ in range(2)],
         "source": [gen_text_comp(rng, t, "source") for _ in range(2)],
         "frames": {},
+        # image files recur across documents of one run (content-keyed caches); some have no readable pixel size
+        "figfiles": [{"fmt": rng.choice(["png", "png", "jpeg", "raw", "emf"]), "w": rng.randrange(1, 400),
+                      "h": rng.randrange(1, 400), "seed": rng.randrange(1000)} for _ in range(3)],
     }
     for n in ncols_choices:
         kinds = ["plain", "plain"]
@@ -222,17 +233,19 @@ def gen_palette_of_specs(rng, t) -> dict:
             kinds.append("grouped")
         if t["failing"]:
             kinds.append("broken")
+            if n >= 3:
+                kinds.append("broken2")
         pal["frames"][n] = [(k, gen_frame(rng, t, n, k)) for k in kinds]
     return pal
 
 
 def _pick_body(rng, t, pal, n, frame_kind, allow_grouping=True):
     spec = dict(rng.choice(pal["body_any"] + pal["body_n"][n] + pal["body_n"][n]))
-    if allow_grouping and frame_kind in ("grouped", "broken"):
+    if allow_grouping and frame_kind in ("grouped", "broken", "broken2"):
         used = set()
-        if t["group_by"] or frame_kind == "broken":
-            if rng.random() < 0.8 or frame_kind == "broken":
-                spec["group_by"] = ["c0"] if (n < 3 or rng.random() < 0.6) else ["c0", "c1"]
+        if t["group_by"] or frame_kind in ("broken", "broken2"):
+            if rng.random() < 0.8 or frame_kind in ("broken", "broken2"):
+                spec["group_by"] = ["c0"] if (frame_kind != "broken2" and (n < 3 or rng.random() < 0.6)) else ["c0", "c1"]
                 used.update(spec["group_by"])
         if t["page_by"] and "c0" not in used and rng.random() < 0.7:
             spec["page_by"] = ["c0"]
@@ -266,12 +279,13 @@ def gen_recipe(rng, t, pal) -> dict:
     if kind == "figure":
         nfig = rng.choice([1, 1, 2, 3])
         rec["figure"] = {
-            "files": [{"fmt": rng.choice(["png", "png", "jpeg"]), "w": rng.randrange(1, 400),
-                       "h": rng.randrange(1, 400), "seed": rng.randrange(1000)} for _ in range(nfig)],
+            "files": [dict(rng.choice(pal["figfiles"])) for _ in range(nfig)],
             "kw": {},
         }
-        if rng.random() < 0.5:
+        if rng.random() < 0.6:
             rec["figure"]["kw"]["fig_width"] = rng.choice([3.0, 5.0]) if rng.random() < 0.5 else [rng.choice([2.0, 4.0]) for _ in range(nfig)]
+        if rng.random() < 0.4:
+            rec["figure"]["kw"]["fig_height"] = rng.choice([2.0, 3.5, 6.0])
         if rng.random() < 0.3:
             rec["figure"]["kw"]["fig_align"] = rng.choice(["left", "center", "right"])
         # figure documents require as_table=False
@@ -382,6 +396,8 @@ def figure_bytes(fs: dict) -> bytes:
 
     rr = _r.Random(fs["seed"])
     noise = bytes(rr.randrange(256) for _ in range(40 + fs["seed"] % 50))
+    if fs["fmt"] in ("raw", "emf"):
+        return noise  # no signature: pixel size cannot be read (fallback path of the encoder)
     if fs["fmt"] == "png":
         ihdr = struct.pack(">IIBBBBB", fs["w"], fs["h"], 8, 2, 0, 0, 0)
         chunk = b"IHDR" + ihdr
@@ -396,7 +412,7 @@ def figure_bytes(fs: dict) -> bytes:
 def figure_paths(recipe: dict, figdir: str) -> list:
     out = []
     for i, fs in enumerate(recipe["figure"]["files"]):
-        ext = "png" if fs["fmt"] == "png" else "jpg"
+        ext = {"png": "png", "raw": "png", "emf": "emf"}.get(fs["fmt"], "jpg")
         name = f"fig_{digest(fs)[:10]}.{ext}"
         p = os.path.join(figdir, name)
         if not os.path.exists(p):
